@@ -273,8 +273,14 @@ LIMITS = r'''
 
 ## 7. Trusted base
 
-* Coq 8.16.1 kernel including the `vm_compute` virtual machine (no `native_compute`); `coqchk` is run
-  over all `Props/*.vo` in `setup.sh` (its log is `build/coqchk.log`).
+* Coq 8.16.1 kernel including the `vm_compute` virtual machine (no `native_compute`).  `setup.sh` runs `coqchk -o` on every
+  `Props/Cxx.vo` (one process per property file, in parallel; logs `build/coqchk_OFV.Props.Cxx.log`, summary
+  `build/coqchk.log`).  `coqchk` has no virtual machine, so the bounded table theorems (`vm_compute` over all n <= 128 etc.)
+  are re-evaluated by plain conversion there: 19 of the 20 property files finish in 40 s - 8 min; `Props/C05` (the
+  Bravyi-Kitaev tables for n <= 128 and the tree tables for n <= 40) needs far longer than the 15-minute limit given to each
+  process in `setup.sh` and is listed there as not re-checked (exit 124) - it is checked by the `coqc` kernel only, like every
+  file during the build.  (A single `coqchk` run over all files, as in earlier versions of `setup.sh`, exceeded 50 minutes and
+  made `setup.sh` fail; `COQCHK_TIMEOUT` sets the limit.)
 * Axioms: **none declared**.  `Print Assumptions` reports "Closed under the global context" for every
   property theorem (recorded in each evidence file) except one: `C15_suzuki_split_cancels` is stated over
   the standard library's real numbers (`Coq.Reals`) and therefore depends on the library's own axioms
